@@ -9,7 +9,6 @@ import (
 	"time"
 
 	"github.com/prometheus/prometheus/model/labels"
-	"github.com/prometheus/prometheus/storage"
 
 	"qrynverif/readersvc"
 )
@@ -111,9 +110,13 @@ func profEndpoint(rd *readersvc.Reader, wrap int, sel, tid string) error {
 	case 2:
 		_, err = rd.Prof.MergeStackTraces(ctx, sel, tid, tf, tt)
 	case 3:
-		_, err = rd.Prof.SelectSeries(ctx, sel, tid, []string{"pod"}, 0, 15, tf, tt)
+		err = selectSeries(rd, sel, tid, []string{"pod"})
 	case 4:
-		_, err = rd.Prof.TimeSeries(ctx, []string{sel, `{x="y"}`}, []string{"pod"}, tf, tt)
+		lbls := []string{"pod"}
+		if curOpt%2 == 1 {
+			lbls = nil
+		}
+		_, err = rd.Prof.TimeSeries(ctx, []string{sel, `{x="y"}`}, lbls, tf, tt)
 	case 5:
 		_, err = rd.Prof.MergeProfiles(ctx, sel, tid, tf, tt)
 	case 6:
@@ -123,6 +126,31 @@ func profEndpoint(rd *readersvc.Reader, wrap int, sel, tid string) error {
 		if rd.Get("/pyroscope/render-diff?"+q.Encode()).Code >= 400 {
 			err = fmt.Errorf("render-diff failed")
 		}
+	}
+	return err
+}
+
+// selectSeries calls ProfService.SelectSeries under the option variant: aggregation SUM /
+// AVERAGE, grouping as given / none / two labels, step 15 / 60 s.
+func selectSeries(rd *readersvc.Reader, sel, tid string, groupBy []string) error {
+	ctx := context.Background()
+	tf, tt := time.Unix(fromS, 0), time.Unix(toS, 0)
+	o := curOpt
+	switch (o >> 1) % 3 {
+	case 1:
+		groupBy = nil
+	case 2:
+		groupBy = append(append([]string{}, groupBy...), "a")
+	}
+	step := int64(15)
+	if (o>>3)%2 == 1 || o == 5 {
+		step = 60
+	}
+	var err error
+	if o%2 == 1 {
+		_, err = rd.Prof.SelectSeries(ctx, sel, tid, groupBy, 1, step, tf, tt) // TIME_SERIES_AGGREGATION_TYPE_AVERAGE
+	} else {
+		_, err = rd.Prof.SelectSeries(ctx, sel, tid, groupBy, 0, step, tf, tt) // ..._SUM
 	}
 	return err
 }
@@ -201,10 +229,7 @@ func structuredPositions() []*position {
 			if err != nil {
 				return outcome{}
 			}
-			hints := &storage.SelectHints{Start: fromS * 1000, End: toS * 1000, Step: 1000}
-			if v.Wrap%2 == 1 {
-				hints = &storage.SelectHints{Start: 1699999995000, End: toS * 1000, Step: 30000, Func: "avg_over_time", Range: 300000}
-			}
+			hints := promHints(v)
 			q, err := rd.Prom.SetOidAndDB(context.Background()).Querier(context.Background(), hints.Start, hints.End)
 			if err != nil {
 				return outcome{intended: p, expressible: true, status: 1}
